@@ -21,6 +21,25 @@ def same_curve(A, B, tol):
     return A.shape == B.shape and (np.abs(A - B).max() <= tol or np.abs(A - B[::-1]).max() <= tol)
 
 
+_TEMPLATE_MODE = [0]
+
+
+def mkroll(g):
+    """the roll a pass is built from: a brand-new one, or (every other call) a template that was looked at while it carried another groove and was
+    re-grooved afterwards - a fresh pass built from it must describe the groove it has NOW"""
+    from pyroll.core import Roll, RoundGroove
+    _TEMPLATE_MODE[0] += 1
+    if _TEMPLATE_MODE[0] % 2:
+        return Roll(groove=g, nominal_radius=0.2)
+    pad = np.rad2deg(getattr(g, 'pad_angle', 0) or 0)
+    size = max(g.usable_width, g.depth, 1e-6)
+    before = RoundGroove(r1=0.05 * size, r2=0.7 * size, depth=0.45 * size, pad_angle=float(pad))
+    roll = Roll(groove=before, nominal_radius=0.2)
+    roll.contour_line, roll.min_radius, roll.contour_points      # read (and memoised) with the earlier groove
+    roll.groove = g
+    return roll
+
+
 def two_roll_cases(chk, rng):
     from pyroll.core import RollPass, Roll
     for name, kw in GC.CATALOGUE:
@@ -30,7 +49,7 @@ def two_roll_cases(chk, rng):
         for gap in [0.0, 1e-3, rng.uniform(1e-4, 2e-2)]:
             chk.cov['evaluations'] += 1
             data = {'groove': name, 'kwargs': kw, 'gap': gap, 'rolls': 2}
-            rp = RollPass(label="p", roll=Roll(groove=g, nominal_radius=0.2), gap=gap)
+            rp = RollPass(label="p", roll=mkroll(g), gap=gap)
             up, lo = [np.array(c.coords) for c in rp.contour_lines.geoms]
             scale = g.width
             if not same_curve(rot(up, 180), lo, 1e-12 * scale) or not same_curve(rot(lo, 180), up, 1e-12 * scale):
@@ -47,7 +66,7 @@ def two_roll_cases(chk, rng):
                 return chk.fail('two-height', f"{name}: height {h} != gap + 2*depth = {gap + 2 * g.depth}", data)
             if abs(up[:, 1].max() - lo[:, 1].min() - h) > 1e-9 * scale and 'indent' not in kw:
                 return chk.fail('two-height-contour', f"{name}: extent of the opening {up[:, 1].max() - lo[:, 1].min()} != height {h}", data)
-            rp2 = RollPass(label="p", roll=Roll(groove=g, nominal_radius=0.2), height=h)
+            rp2 = RollPass(label="p", roll=mkroll(g), height=h)
             if abs(rp2.gap - gap) > 1e-12 * scale:
                 return chk.fail('two-roundtrip', f"{name}: height {h} fed back gives gap {rp2.gap}, original {gap}", data)
             ucs = rp.usable_cross_section
@@ -62,7 +81,7 @@ def asymmetric_spline_case(chk):
     g = SplineGroove([(0, 0), (5e-3, 8e-3), (15e-3, 12e-3), (30e-3, 10e-3), (40e-3, 4e-3), (45e-3, 0)], classifiers=['oval'])
     for gap in (1e-3, 4e-3):
         chk.cov['evaluations'] += 1
-        rp = RollPass(label="p", roll=Roll(groove=g, nominal_radius=0.2), gap=gap)
+        rp = RollPass(label="p", roll=mkroll(g), gap=gap)
         up, lo = [np.array(c.coords) for c in rp.contour_lines.geoms]
         data = {'groove': 'asymmetric SplineGroove', 'gap': gap, 'rolls': 2}
         if not same_curve(rot(up, 180), lo, 1e-12 * 45e-3):
@@ -90,7 +109,7 @@ def three_roll_cases(chk, rng):
         for gap in [0.0, 1e-3, rng.uniform(1e-4, 1e-2)]:
             chk.cov['evaluations'] += 1
             data = {'groove': name, 'kwargs': kw, 'gap': gap, 'rolls': 3}
-            rp = ThreeRollPass(label="p", roll=Roll(groove=g, nominal_radius=0.2), gap=gap)
+            rp = ThreeRollPass(label="p", roll=mkroll(g), gap=gap)
             cs = [np.array(c.coords) for c in rp.contour_lines.geoms]
             scale = g.width
             for i in range(3):
@@ -115,7 +134,7 @@ def three_roll_cases(chk, rng):
                 chk.notes.append(f"{name} gap {gap}: only {found} neighbouring face pairs identified")
             # the opening is one quantity in three guises: with the gap given (also an exact 0 of any numeric type) the other two are available
             for zero in ((0, np.float64(0), np.int64(0)) if gap == 0.0 else ()):
-                rpz = ThreeRollPass(label="p", roll=Roll(groove=g, nominal_radius=0.2), gap=zero)
+                rpz = ThreeRollPass(label="p", roll=mkroll(g), gap=zero)
                 try:
                     float(rpz.inscribed_circle_diameter), float(rpz.height)
                 except Exception as e:      # noqa
@@ -126,11 +145,11 @@ def three_roll_cases(chk, rng):
             except Exception as e:      # noqa
                 return chk.fail('three-members', f"{name}: three-roll pass with gap {gap}: reading the inscribed circle diameter and the height raises "
                                 f"{type(e).__name__}: {str(e)[:100]}", data)
-            rp2 = ThreeRollPass(label="p", roll=Roll(groove=g, nominal_radius=0.2), inscribed_circle_diameter=icd)
+            rp2 = ThreeRollPass(label="p", roll=mkroll(g), inscribed_circle_diameter=icd)
             if abs(rp2.gap - gap) > 1e-9 * scale:
                 return chk.fail('three-roundtrip-icd', f"{name}: inscribed circle diameter {icd} fed back gives gap {rp2.gap}, original {gap}", data)
             if 'indent' not in kw:
-                rp3 = ThreeRollPass(label="p", roll=Roll(groove=g, nominal_radius=0.2), height=h)
+                rp3 = ThreeRollPass(label="p", roll=mkroll(g), height=h)
                 if abs(rp3.gap - gap) > 1e-9 * scale:
                     key = 'three-height-flat-groove' if name == 'FlatGroove' else 'three-roundtrip-height'
                     if not any(f.key == key for f in chk.failures):
@@ -143,7 +162,7 @@ def three_roll_cases(chk, rng):
                 ref = {'gap': gap, 'height': h, 'inscribed_circle_diameter': icd}
                 for given in ref:
                     for order in itertools.permutations(ref):
-                        rpo = ThreeRollPass(label="p", roll=Roll(groove=g, nominal_radius=0.2), **{given: ref[given]})
+                        rpo = ThreeRollPass(label="p", roll=mkroll(g), **{given: ref[given]})
                         for k in order:
                             try:
                                 v = float(getattr(rpo, k))
@@ -155,13 +174,13 @@ def three_roll_cases(chk, rng):
                                                 f"{' -> '.join(order)}, {ref[k]} otherwise", dict(data, given=given, order=list(order)))
                 # histories: the defining member is edited after the others were read; re-evaluation must follow the new value
                 for given in ('inscribed_circle_diameter', 'height', 'gap'):
-                    rpe = ThreeRollPass(label="p", roll=Roll(groove=g, nominal_radius=0.2), **{given: ref[given]})
+                    rpe = ThreeRollPass(label="p", roll=mkroll(g), **{given: ref[given]})
                     for k in rng.sample(list(ref), 3):
                         getattr(rpe, k)
                     new = ref[given] + (1e-3 if given != 'gap' else 5e-4)
                     setattr(rpe, given, new)
                     rpe.reevaluate_cache()
-                    fresh = ThreeRollPass(label="p", roll=Roll(groove=g, nominal_radius=0.2), **{given: new})
+                    fresh = ThreeRollPass(label="p", roll=mkroll(g), **{given: new})
                     for k in ref:
                         a, b = float(getattr(rpe, k)), float(getattr(fresh, k))
                         if abs(a - b) > 1e-9 * scale:
